@@ -419,7 +419,87 @@ def run_valid_large(ctx, n):
     ctx.run_hypothesis(valid_large_cases(), check, n)
 
 
+# ---------------------------------------------------------------------------
+# one decoder object, several decodes (the I/O layer keeps one codec per
+# scale): results must not depend on what was decoded before
+# ---------------------------------------------------------------------------
+@st.composite
+def reuse_cases(draw):
+    b = [draw(st.sampled_from([1, 2, 4, 8])) for _ in range(3)]
+    grid = [draw(st.integers(1, 3)) for _ in range(3)]
+    # two sizes with the same block grid, one with a larger grid
+    s1 = [g * k for g, k in zip(grid, b)]
+    s2 = [max(1, g * k - draw(st.integers(0, k - 1)))
+          for g, k in zip(grid, b)]
+    s3 = list(s1)
+    s3[draw(st.integers(0, 2))] += 1
+    return {"dtype": draw(st.sampled_from(["uint32", "uint64"])),
+            "channels": draw(st.integers(1, 2)), "block": b,
+            "sizes": [s1, s2, s3],
+            "label": draw(st.sampled_from([0, 1, 7, 2 ** 31, 2 ** 32 - 1])),
+            "uniform": draw(st.booleans()),
+            "order": draw(st.permutations([0, 1, 2, 0, 1]))}
+
+
+def check_reuse(ctx, case):
+    from neuroglancer_scripts import chunk_encoding as ce
+    C = case["channels"]
+    dt = np.dtype(case["dtype"]).newbyteorder("<")
+    enc = ce.CompressedSegmentationEncoder(case["dtype"], C,
+                                           list(case["block"]))
+    raw = ce.RawChunkEncoder(case["dtype"], C)
+    chunks, bufs, rbufs = [], [], []
+    for i, (X, Y, Z) in enumerate(case["sizes"]):
+        a = np.full((C, Z, Y, X), case["label"], dtype=dt)
+        if not case["uniform"]:
+            a[..., 0] += 1
+        chunks.append(a)
+        bufs.append(bytes(enc.encode(a)))
+        rbufs.append(raw.encode(a))
+    for i in case["order"]:
+        X, Y, Z = case["sizes"][i]
+        for codec, data in ((enc, bufs[i]), (raw, rbufs[i])):
+            try:
+                out = codec.decode(data, (X, Y, Z))
+            except Exception as exc:
+                ctx.fail("%s: valid data for size %s rejected after other "
+                         "decodes with the same codec object: %s %s" % (
+                             type(codec).__name__, case["sizes"][i],
+                             type(exc).__name__, exc))
+            if out.shape != chunks[i].shape or not np.array_equal(
+                    out, chunks[i]):
+                ctx.fail("%s: decoding size %s after other decodes with the "
+                         "same codec object gives shape %s (expected %s)" % (
+                             type(codec).__name__, case["sizes"][i],
+                             out.shape, chunks[i].shape))
+        # bytes of another chunk with the requested size of this one
+        j = (i + 1) % 3
+        for codec, data in ((enc, bufs[j]), (raw, rbufs[j])):
+            try:
+                out = codec.decode(data, (X, Y, Z))
+            except ce.InvalidFormatError:
+                continue
+            except Exception as exc:
+                ctx.fail("%s raised %s instead of InvalidFormatError" % (
+                    type(codec).__name__, type(exc).__name__))
+            if out.shape != chunks[i].shape:
+                ctx.fail("%s: data of a chunk of size %s decoded with "
+                         "requested size %s returns shape %s" % (
+                             type(codec).__name__, case["sizes"][j],
+                             case["sizes"][i], out.shape))
+
+
+def run_reuse(ctx, n):
+    def check(ctx, case):
+        check_reuse(ctx, case)
+        ctx.record(case, True, ["uniform" if case["uniform"]
+                                else "nonuniform"])
+    ctx.run_hypothesis(reuse_cases(), check, n)
+
+
 def replay(ctx, case):
+    if "sizes" in case:
+        return check_reuse(ctx, case)
     if "nlabels" in case:
         return check_valid_large(ctx, case)
     if "data" in case:
@@ -491,6 +571,7 @@ SUBS = [
     Sub("valid", run_valid, replay, quick=1500, thorough=40000),
     Sub("valid_large", run_valid_large, replay, quick=24, thorough=400,
         shards=6),
+    Sub("codec_reuse", run_reuse, replay, quick=800, thorough=20000),
     Sub("atheris", run_atheris, replay, quick=30000, thorough=120,
         serial=True),
 ]
